@@ -9,6 +9,12 @@ from .. import gen, project
 from ..core import driver
 
 
+def _small(v):
+    """Totals of the cases of these drivers stay far below 2^31; a recorded total beyond TLC's integers is projected to -1 (equal to
+    no legitimate total), so that it is judged - as wrong - instead of stopping the validation."""
+    return v if -2 ** 31 < v < 2 ** 31 - 1 else -1
+
+
 def _dtypes(cols, bits, unsigned=False):
     return {c: f"{'u' if unsigned else ''}int{bits}" for c in cols}
 
@@ -85,7 +91,7 @@ def mg_merge(case, ctx):
     c = cooler.Cooler(out)
     sc = case.get("scale", 1)
     return {"err": "", "px": project.pixel_rows(c.pixels()[:], ["bin1_id", "bin2_id", *cols], sc),
-            "sum": project.to_int(c.info["sum"] * sc) if "sum" in c.info else 0, "raw": project.raw_uri(out, scale=sc)}
+            "sum": _small(project.to_int(c.info["sum"] * sc)) if "sum" in c.info else 0, "raw": project.raw_uri(out, scale=sc)}
 
 
 @driver("mg.incompat")
@@ -223,5 +229,5 @@ def mg_fits(case, ctx):
     except Exception as ex:
         return {"err": type(ex).__name__, "px": [], "sum": 0, "is_cooler": bool(os.path.exists(out) and cooler.fileops.is_cooler(out))}
     c = cooler.Cooler(out)
-    return {"err": "", "px": project.pixel_rows(c.pixels()[:], ["bin1_id", "bin2_id", "count"]), "sum": project.to_int(c.info["sum"]),
+    return {"err": "", "px": project.pixel_rows(c.pixels()[:], ["bin1_id", "bin2_id", "count"]), "sum": _small(project.to_int(c.info["sum"])),
             "is_cooler": True}
